@@ -48,6 +48,30 @@ C31_CODES = [
 ]
 
 
+small = st.integers(0, 15)
+
+
+def _op(codes):
+    return st.tuples(st.sampled_from(codes), small, small, small).map(list)
+
+
+@st.composite
+def _fav_ops(draw):
+    """post_update favourite set and flushed; later, inside ONE flush, it is re-pointed or cleared and the old target deleted"""
+    filler = [c for c in C31_CODES if c not in ("flush", "commit", "rollback", "nested", "release", "fav", "delete")]
+    ops = [["new", 0, draw(small), 0], ["new", 1, draw(small), 0], ["new", 1, draw(small), 0], ["new", 1, draw(small), 0], ["new", 0, draw(small), 0],
+           ["append", 0, 0, 0], ["append", 0, 1, 0], ["append", draw(small), 2, 0]]
+    ops += draw(st.lists(_op(E.SETUP_CODES), min_size=0, max_size=3))
+    ops.append(["fav", 0, draw(st.integers(0, 1)), 1])
+    ops.append(draw(st.sampled_from([["commit", 0, 0, 0], ["flush", 0, 0, 0]])))
+    ops += draw(st.lists(_op(filler), min_size=0, max_size=2))
+    ops.append(["fav", 0, draw(small), draw(st.sampled_from([0, 0, 1, 1, 3]))])  # None, another own child, any child
+    ops += draw(st.lists(_op(filler), min_size=0, max_size=2))
+    ops += [["delete", draw(st.sampled_from([1, 2, 1, 2, 0, 3, 4])), 0, 0], ["delete", draw(st.integers(0, 4)), 0, 0]]
+    ops += draw(st.lists(_op(C31_CODES), min_size=0, max_size=6))
+    return ops[:40]
+
+
 @st.composite
 def _cases(draw, fk_on):
     cfg = dict(draw(E.cfg_strategy("c31")))
@@ -55,6 +79,11 @@ def _cases(draw, fk_on):
     if not fk_on:
         cfg["natpk"] = None  # ON UPDATE CASCADE needs enforcement
     cfg["eoc"] = draw(st.booleans())
+    if draw(st.integers(0, 9)) < 3:
+        cfg.update(fam="pct", fav=True, autoflush=draw(st.sampled_from([False, False, True])))
+        for k, v in (("fk_nullable", True), ("inh", False), ("natpk", None), ("m2m_coll", "list"), ("m2m_bidir", "backref")):
+            cfg.setdefault(k, v)
+        return {"cfg": E.norm_cfg(cfg), "ops": draw(_fav_ops())}
     return {"cfg": E.norm_cfg(cfg), "ops": draw(E.ops_strategy(C31_CODES))}
 
 
@@ -131,7 +160,8 @@ def _check(case, ctx, shadow):
             if "scenario" in case:
                 cls.append("scenario=" + case["scenario"])
             cls.append("flush-statements=" + ("0-2" if mon.max_stmts <= 2 else "3-5" if mon.max_stmts <= 5 else "6-9" if mon.max_stmts <= 9 else "10+"))
-            for k in ("orphan-delete", "pk-change-flush", "mixed-flush", "repair-parent", "savepoint-depth-1", "delete-favourite-with-its-holder"):
+            for k in ("orphan-delete", "pk-change-flush", "mixed-flush", "repair-parent", "savepoint-depth-1", "delete-favourite-with-its-holder",
+                      "repoint-favourite-and-delete-old-target", "null-favourite-and-delete-old-target"):
                 if k in it.classes:
                     cls.append(k)
             if not cfg.get("fk_nullable", True):
@@ -157,6 +187,12 @@ _PCT_TEMPLATES = {
     # Parent p(0) with children c(1), c(2); the favourite (post_update cycle) is deleted together with its holder
     "favourite-cycle-delete": [["new", 0, 1, 0], ["new", 1, 1, 0], ["new", 1, 2, 0], ["append", 0, 0, 0], ["append", 0, 1, 0], ["fav", 0, 0, 1],
                                ["commit", 0, 0, 0], ["delete", 0, 0, 0]],
+    # post_update many-to-one: favourite re-pointed (or cleared) and the old target deleted in the same flush:
+    # UPDATE parent SET fav_ref must precede DELETE FROM child
+    "favourite-repoint-and-delete-old-target": [["new", 0, 1, 0], ["new", 1, 1, 0], ["new", 1, 2, 0], ["append", 0, 0, 0], ["append", 0, 1, 0], ["fav", 0, 0, 1],
+                                                ["commit", 0, 0, 0], ["fav", 0, 1, 1], ["delete", 1, 0, 0], ["new", 1, 3, 0], ["append", 0, 1, 0]],
+    "favourite-null-and-delete-old-target": [["new", 0, 1, 0], ["new", 1, 1, 0], ["new", 1, 2, 0], ["append", 0, 0, 0], ["append", 0, 1, 0], ["fav", 0, 0, 1],
+                                             ["flush", 0, 0, 0], ["fav", 0, 0, 0], ["set", 0, 2, 0], ["delete", 1, 0, 0]],
     # re-parent the child, delete the old parent, add a new child in the same flush
     "reparent-and-delete-old-parent": [["new", 0, 1, 0], ["new", 0, 2, 0], ["new", 1, 1, 0], ["append", 0, 0, 0], ["commit", 0, 0, 0],
                                        ["append", 1, 0, 0], ["new", 1, 3, 0], ["append", 1, 1, 0], ["delete", 0, 0, 0]],
@@ -192,7 +228,7 @@ def _scenarios(tier):
                             natpk = "passive" if (fk_on and name == "insert-subtree-and-move") else None
                             yield {"scenario": name,
                                    "cfg": E.norm_cfg({"fam": "pct", "coll": coll, "bidir": bidir, "cascade": cascade, "fk_on": fk_on, "fk_nullable": nullable,
-                                                      "fav": name == "favourite-cycle-delete", "inh": coll == "set", "natpk": natpk,
+                                                      "fav": name.startswith("favourite-"), "inh": coll == "set", "natpk": natpk,
                                                       "m2m_coll": coll, "m2m_bidir": "backref" if bidir != "m2o_only" else "none"}),
                                    "ops": [list(o) for o in ops]}
 
